@@ -25,7 +25,7 @@ fn drop_thread(c: &Case, t: usize) -> Case {
     if t < n.cpus.len() {
         n.cpus.remove(t);
     }
-    let map = |x: u32| if (x as usize) > t { x - 1 } else { x };
+    let map = |x: u32| if x < crate::sim::HELPER_BASE && (x as usize) > t { x - 1 } else { x };
     n.switches = c
         .switches
         .iter()
@@ -125,7 +125,7 @@ fn merge_all_threads(c: &Case, order: &[usize]) -> Case {
     }
     // the merged thread keeps the tightest CPU restriction any of the merged threads had
     let cpu = order.iter().filter_map(|t| c.cpus.get(*t).copied()).filter(|x| *x > 0).min().unwrap_or(0);
-    Case { threads: vec![calls], churn: vec![vec![]], start: 0, switches: vec![], jumps: vec![jumps], depths: vec![depths], cpus: vec![cpu] }
+    Case { threads: vec![calls], churn: vec![vec![]], start: 0, switches: vec![], jumps: vec![jumps], depths: vec![depths], cpus: vec![cpu], entropy: c.entropy }
 }
 
 fn merge_two(c: &Case, a: usize, b: usize) -> Case {
